@@ -184,6 +184,26 @@ static void fileGraphCase(const VL& deg, size_t nw, size_t ew, size_t total, con
     }
     out->line(Rec().str("k", "divide").str("ty", "OfflineGraph").arr("deg", deg).i("nw", nw).i("ew", ew).i("t", total)
                   .arr("sc", nosc).i("bn", 0).i("en", nn).i("nn", nn).i("ne", ne).raw("r", vh::jarr2(r3)));
+    // every host of a distributed run loads its share with partFromFile (non-zero node / edge offsets)
+    // and divides it again among its threads
+    for (size_t hosts = 1; hosts <= 3; ++hosts)
+      for (size_t h = 0; h < hosts; ++h) {
+        auto share = w.divideByNode(0, 1, h, hosts);
+        if (share.first.first == share.first.second) continue;
+        galois::graphs::FileGraph part;
+        part.partFromFile(path, share.first, share.second, false);
+        size_t gb = *share.first.first, ge = *share.first.second;
+        for (size_t tt = 1; tt <= 3; ++tt) {
+          VVL r4;
+          for (size_t id = 0; id < tt; ++id) {
+            auto g = part.divideByNode(nw, ew, id, tt);
+            r4.push_back({(long long)*g.first.first, (long long)*g.first.second,
+                          (long long)*g.second.first, (long long)*g.second.second});
+          }
+          out->line(Rec().str("k", "divide").str("ty", "FileGraphPart").arr("deg", deg).i("nw", nw).i("ew", ew).i("t", tt)
+                        .arr("sc", nosc).i("bn", gb).i("en", ge).i("nn", ge - gb).i("ne", part.sizeEdges()).raw("r", vh::jarr2(r4)));
+        }
+      }
   }
 }
 
@@ -300,7 +320,8 @@ int main(int argc, char** argv) {
     // FileGraph / OfflineGraph
     if (!deg.empty())
       for (size_t t = 1; t <= maxParts; ++t) {
-        fileGraphCase(deg, 1, 1, t, tmp, deg.size() == 3 && t <= 2);
+        fileGraphCase(deg, 1, 1, t, tmp, deg.size() >= 3 && t == 2);
+        if (deg.size() >= 3 && t == 1) fileGraphCase(deg, 0, 1, t, tmp, true);
         fileGraphCase(deg, 0, 1, t, tmp, false);
         fileGraphCase(deg, 8, 4, t, tmp, false);
       }
